@@ -864,7 +864,11 @@ func ruleChunksAppend(w *core.World, r *core.Report) {
 		for _, e := range replayEvents(p) {
 			if e.kind == "del" || e.kind == "exists" {
 				n++
-				if !first {
+				whole := pathAssumed(p, func(x ssa.Value) bool {
+					c, ok := core.Unwrap(x).(*ssa.Call)
+					return ok && c.Call.IsInvoke() && c.Call.Method.Name() == "IsSplited"
+				}, false)
+				if !first && !whole {
 					bad, badPos = e.kind+" runs for a chunk that is not the first one of a split value: the chunks written before it are deleted (replace) or make the replay fail (error)", e.pos
 				}
 			}
